@@ -1,4 +1,5 @@
 import Glas.Model.TySpec
+import Glas.Model.Infer
 /-! Driver command `tycheck <program> <assignment>`: parses the s-expression encoding of a program
 of the core language and an assignment (function schemes, local binder types), runs `checkFn` on
 every function and prints the functions it rejects (`ok` if none).  Parsing is glue outside the
@@ -134,8 +135,40 @@ def toFn : SExp → Option RawFn
     some { name := n, labels := labels, params := ids, paramAnn := (← anns.mapM toAnn), retAnn := (← toAnn ret), body := (← toExpr body) }
   | _ => none
 
+partial def showTy : Ty → String
+  | .int => "Int" | .float => "Float" | .string => "String" | .bool => "Bool" | .nil => "Nil" | .bitArray => "BitArray"
+  | .list t => "List(" ++ showTy t ++ ")"
+  | .result a b => "Result(" ++ showTy a ++ ", " ++ showTy b ++ ")"
+  | .tuple ts => "#(" ++ ", ".intercalate (ts.map showTy) ++ ")"
+  | .fn ps r => "fn(" ++ ", ".intercalate (ps.map showTy) ++ ") -> " ++ showTy r
+  | .adt n as => if as.isEmpty then n else n ++ "(" ++ ", ".intercalate (as.map showTy) ++ ")"
+  | .gen n => n
+
+def parseProgram (prog : String) : Option (List Adt × List RawFn) := do
+  let p ← parseTop (tokenize prog)
+  match p with
+  | [.list (.atom "adts" :: as), .list (.atom "fns" :: fs)] => do some ((← as.mapM toAdt), (← fs.mapM toFn))
+  | _ => none
+
 def run (args : List String) : Option String :=
   match args with
+  | ["tyinfer", prog, groups] =>
+    some <| (do
+      let (pr : List Adt × List RawFn) ← parseProgram prog
+      let gs ← parseTop (tokenize groups)
+      let groups ← gs.mapM (fun (g : SExp) => match g with
+        | .list (.atom "g" :: names) => names.mapM (fun (n : SExp) => match n with
+          | .atom s => (pr.2.find? (fun (f : RawFn) => f.name == s)).map (fun (f : RawFn) =>
+              (({ name := f.name, params := f.params, paramAnn := f.paramAnn, retAnn := f.retAnn, body := f.body } : FnDef), f.labels))
+          | _ => none)
+        | _ => none)
+      let r := Glas.Infer.inferProgram pr.1 groups
+      -- the proved checker on the model's own result
+      let sigs : List FnSig := pr.2.filterMap (fun (f : RawFn) => (r.fnTys.lookup f.name).map (fun t => { name := f.name, labels := f.labels, ty := t }))
+      let D : Decls := { adts := pr.1, fns := sigs, locals := r.locals }
+      let bad := pr.2.filter (fun (f : RawFn) => !checkFn D 200 { name := f.name, params := f.params, paramAnn := f.paramAnn.map (fun _ => none), retAnn := none, body := f.body })
+      some ((if bad.isEmpty then "valid " else "invalid(" ++ ",".intercalate (bad.map (fun (f : RawFn) => f.name)) ++ ") ") ++ "fn " ++ ";".intercalate (r.fnTys.map (fun (x : String × Ty) => x.1 ++ "=" ++ showTy x.2)) ++ "|loc " ++
+            ";".intercalate (r.locals.map (fun (x : Nat × Ty) => toString x.1 ++ "=" ++ showTy x.2)))).getD "bad-op"
   | ["tycheck", prog, assign] =>
     some <| (do
       let p ← parseTop (tokenize prog)
